@@ -14,7 +14,7 @@ use crate::{
 };
 
 /// Mutation classes = slots of the outcome matrix of the seeded reader families.
-pub const CLASSES: [&str; 44] = [
+pub const CLASSES: [&str; 46] = [
     "field:zero",
     "field:one",
     "field:umax(-1)",
@@ -59,6 +59,8 @@ pub const CLASSES: [&str; 44] = [
     "last-record:field(+1,-1,x2)",
     "text:last-line-number(+1,-1,x2)",
     "cram:last-container(+1,-1,x2)",
+    "cram:header-parameter(encoding maps, slice header)",
+    "cram:block-content-id(encoding, slice header, block header)",
 ];
 
 fn class_index(name: &str) -> usize {
@@ -111,6 +113,10 @@ fn special(rng: &mut Rng, w: usize, cur: u64) -> (u64, &'static str) {
             (v & umax, "field:random")
         }
     }
+}
+
+fn rng_small(rng: &mut Rng) -> i32 {
+    rng.below(200) as i32
 }
 
 fn special_i32(rng: &mut Rng, cur: i32) -> (i32, &'static str) {
@@ -441,6 +447,29 @@ fn cram_once(rng: &mut Rng, c: &mut Cram) -> (&'static str, String) {
         return ("cram:container-field", "no containers".into());
     }
     let nc = c.containers.len();
+    if nc > 2 && rng.chance(1, 4) {
+        // one integer parameter of the compression header (preservation / data series / tag encoding maps), of a
+        // slice header or a block header's content id, on the parsed model: everything enclosing is re-serialised
+        let data: Vec<usize> = (1..nc).filter(|&i| !c.containers[i].landmark_blocks.is_empty()).collect();
+        if !data.is_empty() {
+            let ci = *rng.pick(&data);
+            let targets = cramfmt::container_targets(c, ci);
+            let ids: Vec<_> = targets.iter().filter(|t| t.1).collect();
+            let pick_id = !ids.is_empty() && rng.chance(1, 2);
+            if !targets.is_empty() {
+                let (t, is_id) = if pick_id { **rng.pick(&ids) } else { *rng.pick(&targets) };
+                let d = if rng.chance(3, 4) {
+                    let which = rng.usize_below(cramfmt::STRUCT_VALUES.len());
+                    format!("{} [{}]", cramfmt::apply_target(c, ci, t, which, None), cramfmt::STRUCT_VALUES[which])
+                } else {
+                    let base = rng_small(rng);
+                    let (v, _) = special_i32(rng, base);
+                    cramfmt::apply_target(c, ci, t, 0, Some(v))
+                };
+                return (if is_id { "cram:block-content-id(encoding, slice header, block header)" } else { "cram:header-parameter(encoding maps, slice header)" }, d);
+            }
+        }
+    }
     if nc > 2 && rng.chance(1, 8) {
         // +1 / -1 / x2 on a count or length of the LAST data container (the one in front of the EOF container)
         let ct = &mut c.containers[nc - 2];
